@@ -250,6 +250,10 @@ func (ap *accountPool) rebuild(detailed *nom.DetailedMomentum) error {
 		log.Debug("staring applying blocks", "num-uncommitted", len(uncommitted))
 		manager := db.NewMemDBManager(ap.stable.GetStableAccountDB(address))
 		for _, block := range uncommitted {
+			// batched blocks are re-applied together with the contract-receive which has them as descendants
+			if block.BlockType == nom.BlockTypeContractSend {
+				continue
+			}
 			patch := oldManager.GetPatch(block.Identifier())
 			err := manager.Add(&nom.AccountBlockTransaction{
 				Block:   block,
